@@ -110,6 +110,89 @@ class Resolver:
             return ImplInfo(None, h, generics, hdr)
         return ImplInfo(h[:pos].strip(), h[pos + 5:].strip(), generics, hdr)
 
+    # ---- generic bindings made explicit at a call site
+    def type_defaults(self):
+        """{type name: [(param, default or None), ...]} for the structs/enums of the crate (read from the source)"""
+        if getattr(self, '_defaults', None) is None:
+            d = {}
+            for dp, dn, fns in os.walk(os.path.join(self.repo, 'src')):
+                for fn in fns:
+                    if not fn.endswith('.rs'):
+                        continue
+                    src = open(os.path.join(dp, fn)).read()
+                    for m in re.finditer(r'\b(?:struct|enum)\s+(\w+)\s*<', src):
+                        i = m.end() - 1
+                        depth = 0
+                        for j in range(i, min(len(src), i + 2000)):
+                            if src[j] == '<':
+                                depth += 1
+                            elif src[j] == '>' and src[j - 1] not in '-=':
+                                depth -= 1
+                                if depth == 0:
+                                    ps = []
+                                    for g in _split_generics(src[i + 1:j]):
+                                        if g.startswith("'") or g.startswith('const '):
+                                            continue
+                                        name = re.split(r'[:=]', g)[0].strip()
+                                        dm = re.search(r'=\s*(.+)$', g, re.S)
+                                        ps.append((name, dm.group(1).strip() if dm else None))
+                                    d[m.group(1)] = ps
+                                    break
+            self._defaults = d
+        return self._defaults
+
+    def call_bindings(self, callee, fn, caller_tsub):
+        """the impl's generic parameters that the call path `callee` binds: `Environment::<A, NonRestartable>::create_loop`
+        resolved to a method of `impl<A, R> Environment<A, R>` binds R := NonRestartable (arguments omitted by rustc
+        because they equal the declared default are filled in from the type's declaration).  Identifiers that are
+        generic parameters of the caller are replaced by the caller's own bindings."""
+        info = self.impl_of(fn)
+        if info is None or not info.generics or info.selfty in (None, '?derived'):
+            return None
+        params = [re.split(r'[:=]', g)[0].strip() for g in _split_generics(info.generics) if not g.startswith("'")]
+        sm = re.match(r'^(?:\w+::)*(\w+)\s*<(.*)>$', info.selfty.strip(), re.S)
+        if not sm:
+            return None
+        tname, self_args = sm.group(1), [a for a in _split_generics(sm.group(2)) if not a.startswith("'")]
+        c = callee.strip()
+        m = re.match(r'^<(.*) as (.*)>::(\w+)(::<.*>)?$', c, re.S)
+        if m:
+            selfty = self._split_as(c)[0]
+            am = re.match(r'^&?(?:mut )?(?:\w+::)*(\w+)\s*<(.*)>$', selfty.strip(), re.S)
+            if not am or am.group(1) != tname:
+                return None
+            call_args = [a for a in _split_generics(am.group(2)) if not a.startswith("'")]
+        else:
+            am = re.search(r'(?:^|::)' + re.escape(tname) + r'::<(.*)>::\w+(?:::<.*>)?$', c, re.S)
+            if not am:
+                return None
+            txt = am.group(1)
+            # cut at the matching '>' of the first '<'
+            depth = 1
+            for k, ch in enumerate(txt):
+                if ch == '<':
+                    depth += 1
+                elif ch == '>' and txt[k - 1] not in '-=':
+                    depth -= 1
+                    if depth == 0:
+                        txt = txt[:k]
+                        break
+            call_args = [a for a in _split_generics(txt) if not a.startswith("'")]
+        decl = self.type_defaults().get(tname)
+        if len(call_args) < len(self_args) and decl and len(decl) == len(self_args):
+            call_args = call_args + [dflt for (_, dflt) in decl[len(call_args):]]
+        if len(call_args) != len(self_args) or any(a is None for a in call_args):
+            return None
+        out = {}
+        for sa, ca in zip(self_args, call_args):
+            sa = sa.strip()
+            if sa in params:
+                ca = ca.strip()
+                if caller_tsub:
+                    ca = re.sub(r'\b([A-Za-z_]\w*)\b', lambda mm: caller_tsub.get(mm.group(1), mm.group(1)), ca)
+                out[sa] = ca
+        return out or None
+
     def resolve(self, callee):
         """returns Function or None (not a hannibal function)"""
         c = callee.strip()
